@@ -326,6 +326,8 @@ class Recorder:
     def _replay(self, prog, tr, goal_fn, gname, model, hints, concrete_pred=None):
         model = {k: (Fraction(v) if isinstance(v, str) else v) for k, v in model.items()}
         leaves = tr.env_to_leaves(model, hints)
+        if getattr(tr, "leaf_hook", None) is not None:
+            leaves = tr.leaf_hook(model, leaves)
         if gname.startswith("obligation:"):
             return dict(reproduced=None, note="interpreter obligation: no concrete predicate")
         try:
